@@ -18,6 +18,8 @@ open Uniflow.Table
 structure St where
   st : State := {}
   seq : Bool := false
+  /-- sparse observation: an op answers only `<ret> E <events>`, the state is printed by `observe` -/
+  sparse : Bool := false
 
 /-- take `n` items with parser `p` from the token stream. -/
 def takeN {α : Type} (p : List Nat → Option (α × List Nat)) : Nat → List Nat → Option (List α × List Nat)
@@ -109,6 +111,17 @@ def showEvents (seq : Bool) (evs : List Event) : String :=
   let bs := (blocks (evs.flatMap evToks) none [] []).map (fun b => " ".intercalate b)
   ";".intercalate (if seq then bs else sortStr bs)
 
+/-- the state part of an observation: keys, links, reverse index, active set -/
+def showState (new : State) : String :=
+  let ks := (sortNats (new.symbols.map fun p => [p.1])).map (showNats ".")
+  let ls := (sortNats (new.links.map fun l => [l.src, l.out, l.dst, l.inp])).map (showNats ".")
+  let rs := (sortNats (flatRefs new.references)).map (showNats ".")
+  let act := (sortNats (((ids new.log).filter fun i => decide (activeIn new.log i)).map fun i => [i])).map (showNats ".")
+  s!"K {",".intercalate ks} L {",".intercalate ls} R {",".intercalate rs} A {",".intercalate act}"
+
+def observeSparse (seq : Bool) (old new : State) (r : Ret) (isFree b : Bool) : String :=
+  s!"{showRet r isFree b} E {showEvents seq (new.log.drop old.log.length)}"
+
 def observe (seq : Bool) (old new : State) (r : Ret) (isFree b : Bool) : String :=
   let ks := (sortNats (new.symbols.map fun p => [p.1])).map (showNats ".")
   let ls := (sortNats (new.links.map fun l => [l.src, l.out, l.dst, l.inp])).map (showNats ".")
@@ -120,6 +133,8 @@ def observe (seq : Bool) (old new : State) (r : Ret) (isFree b : Bool) : String 
 def step (s : St) : List String → St × String
   | ["mode", "set"] => ({ s with seq := false }, "ok")
   | ["mode", "seq"] => ({ s with seq := true }, "ok")
+  | ["mode", "sparse"] => ({ s with sparse := true }, "ok")
+  | ["observe"] => (s, showState s.st)
   -- the harness re-uses symbol objects in this case; invisible to the model (symbols are ids)
   | ["mode", "reuse"] => (s, "ok")
   -- the harness builds its table from several TableOptions / adds and removes hooks: the model has
@@ -134,13 +149,13 @@ def step (s : St) : List String → St × String
       | none => (s, "bad-op")
       | some sb =>
         let (st', r, b) := Table.step Ord.id s.st (.insert sb)
-        ({ s with st := st' }, observe s.seq s.st st' r false b)
+        ({ s with st := st' }, (if s.sparse then observeSparse else observe) s.seq s.st st' r false b)
   | ["free", t] =>
     match natTok t with
     | none => (s, "bad-op")
     | some id =>
       let (st', r, b) := Table.step Ord.id s.st (.free id)
-      ({ s with st := st' }, observe s.seq s.st st' r true b)
+      ({ s with st := st' }, (if s.sparse then observeSparse else observe) s.seq s.st st' r true b)
   | ["close"] =>
     let (st', r, b) := Table.step Ord.id s.st .close
     -- Close frees unrelated symbols in map order: its events are always compared as a set; when
@@ -148,7 +163,7 @@ def step (s : St) : List String → St × String
     -- only the fact that Close failed is compared (it does not depend on the order)
     match r with
     | .err _ => ({ s with st := st' }, "err")
-    | _ => ({ s with st := st' }, observe false s.st st' r false b)
+    | _ => ({ s with st := st' }, (if s.sparse then observeSparse else observe) false s.st st' r false b)
   | _ => (s, "bad-op")
 
 def handler : Handler := { σ := St, init := {}, step := step }
